@@ -48,7 +48,28 @@ pub fn judge_ext(kind: u8, a: [f64; 2], b: [f64; 2]) -> Verdict {
     Verdict::Pass
 }
 
+/// history exploration: a prefix call is executed in BOTH configurations (so that both have seen the same history);
+/// the last call is compared across the configurations
+pub fn hist_exec(c: &crate::hist::HCall) {
+    if let Some(op) = c.as_op() {
+        let _ = st::call(op, c.a, c.b);
+        let _ = ns::call(op, c.a, c.b);
+    } else {
+        let _ = st::ext(c.code as u8, c.a, c.b);
+        let _ = ns::ext(c.code as u8, c.a, c.b);
+    }
+}
+pub fn hist_judge(c: &crate::hist::HCall, _l: Option<&mut crate::run::Local>) -> Verdict {
+    match c.as_op() {
+        Some(op) => judge(op, c.a, c.b),
+        None => judge_ext(c.code as u8, c.a, c.b),
+    }
+}
+
 pub fn replay(call: &str, _clause: &str, args: &[u64]) -> Verdict {
+    if call == "hist" {
+        return crate::hist::replay_with(args, &hist_exec, &hist_judge);
+    }
     if let Some(k) = EXT_NAMES.iter().position(|n| *n == call) {
         return judge_ext(k as u8, [f64::from_bits(args[0]), f64::from_bits(args[1])], [f64::from_bits(args[2]), f64::from_bits(args[3])]);
     }
@@ -262,4 +283,19 @@ pub fn run(r: &mut Runner) {
         }
     });
     r.add_sample(json!({"call": "new_mul", "a": hexf(mk_f64(false, 996, (1u64 << 52) - (1 << 26)).unwrap()), "b": hexf(1.5), "note": "member of the all-exponent sweep"}));
+    {
+        // histories: state kept by one configuration only (a thread_local behind cfg(feature = "std"), a different cache
+        // layout) makes the configurations disagree after the same call history
+        let un: Vec<Op> = Op::ALL.iter().cloned().filter(|o| o.arity() == 1 && *o != Op::from_f64 && *o != Op::sin_cos).collect();
+        let mut groups: Vec<Vec<crate::hist::HCall>> = vec![];
+        for &op in &un {
+            groups.extend(crate::hist::unary_groups(&[op], &[[1.25, 1e-17]], [-2.5, 1e-16]));
+        }
+        for &op in &[Op::add, Op::sub, Op::mul, Op::div, Op::rem, Op::powf, Op::atan2, Op::hypot, Op::log, Op::div_assign, Op::sub_assign] {
+            groups.extend(crate::hist::binary_groups(&[op], &[([1.5, 1e-17], [1.25, -3e-18])]));
+        }
+        groups.push((4u8..=9).flat_map(|k| [crate::hist::HCall::ext(k, [2f64.powi(62), 3.0], [0.0, 0.0]), crate::hist::HCall::ext(k, [5.0, 0.0], [0.0, 0.0])]).collect());
+        groups.push(vec![crate::hist::HCall::ext(12, [1.0, 0.0], [0.0, 0.0]), crate::hist::HCall::ext(12, [1.0, -0.0], [0.0, 0.0]), crate::hist::HCall::ext(13, [1.0, 2f64.powi(-53)], [0.0, 0.0]), crate::hist::HCall::ext(13, [1.0, -2f64.powi(-53)], [0.0, 0.0]), crate::hist::HCall::ext(10, [1.0, 2f64.powi(-53)], [2.0, 0.0])]);
+        crate::hist::explore_with(r, "histories in both configurations", &groups, 3, &hist_exec, &hist_judge, 13u64 << 52);
+    }
 }
